@@ -2,6 +2,7 @@ package main
 
 import (
 	"fmt"
+	"go/constant"
 	"go/token"
 	"go/types"
 	"sort"
@@ -622,8 +623,12 @@ func isValidationErr(v ssa.Value) bool {
 				}
 			}
 		case *ssa.UnOp:
-			if g, ok := y.X.(*ssa.Global); ok && isErrorType(Deref(g.Type())) {
-				return true
+			if g, ok := y.X.(*ssa.Global); ok {
+				t := Deref(g.Type())
+				errI := types.Universe.Lookup("error").Type().Underlying().(*types.Interface)
+				if isErrorType(t) || types.Implements(t, errI) {
+					return true
+				}
 			}
 		}
 		return false
@@ -927,3 +932,153 @@ func init() {
 	register("C19", Rule{"R19h", ruleDeferKeepsError})
 	register("C10", Rule{"R19h", ruleDeferKeepsError})
 }
+
+// R19i: whether a description is accepted does not depend on what is on disk.  applyIfExistsConfig handles each
+// ifExists mode on several paths (target absent / present / dry / real).  If the mode's description is validated on
+// one of them (a call that can return a description error: checkNotDirAndNotFileField, checkDirXorFileField,
+// applyFilesFields …), it must be validated on every path of that mode that ends in success — otherwise the same
+// invalid entry is rejected or silently accepted depending on whether its target happens to exist, and the rest of
+// the tree is written.
+func ruleModeValidatedOnAllPaths(p *Program, r *Report) {
+	r.Begin("R19i", "validation independent of the filesystem: in applyIfExistsConfig, for every ifExists mode (the string constants the mode switch compares against), if some path of that mode passes through a validating call (a function of the package that can return a description error), then every path of that mode that returns nil passes through one — branch conditions that compare the mode string with a constant are evaluated, filesystem tests are left open", 3)
+	defer r.End()
+	fn := p.Func(outPkg, "applyIfExistsConfig")
+	if fn == nil {
+		r.Undecided("anchor", "pkg/arrai.applyIfExistsConfig not found", 0)
+		return
+	}
+	r.Fn(FnName(fn))
+	// validators: functions of the package that can return a description error, to a fixpoint over their callers
+	V := map[*ssa.Function]bool{}
+	for changed := true; changed; {
+		changed = false
+		for _, g := range p.RepoFns {
+			if PkgPathOf(g) != Mod+"/"+outPkg || V[g] || g.Parent() != nil {
+				continue
+			}
+			ForEachInstr(g, func(ins ssa.Instruction) {
+				ret, ok := ins.(*ssa.Return)
+				if !ok || len(ret.Results) == 0 || V[g] {
+					return
+				}
+				ev := RetVal(ret, len(ret.Results)-1)
+				if !isErrorType(ev.Type()) || IsNilConst(ev) {
+					return
+				}
+				if isValidationErr(ev) || DependsOn(ev, func(x ssa.Value) bool {
+					c, ok := x.(*ssa.Call)
+					return ok && c.Call.StaticCallee() != nil && V[c.Call.StaticCallee()]
+				}) {
+					V[g] = true
+					changed = true
+				}
+			})
+		}
+	}
+	delete(V, fn)
+	{
+		var vs []string
+		for g := range V {
+			vs = append(vs, FnName(g))
+		}
+		sort.Strings(vs)
+		r.Notes = append(r.Notes, "R19i validators: "+strings.Join(vs, " "))
+	}
+	// the mode constants: string constants compared with a String() call result
+	modeOf := func(cond ssa.Value) (string, bool, bool) { // const, isEq, ok
+		bo, ok := cond.(*ssa.BinOp)
+		if !ok || (bo.Op != token.EQL && bo.Op != token.NEQ) {
+			return "", false, false
+		}
+		k, isK := bo.Y.(*ssa.Const)
+		x := bo.X
+		if !isK {
+			k, isK = bo.X.(*ssa.Const)
+			x = bo.Y
+		}
+		if !isK || k.Value == nil || k.Value.Kind() != constant.String {
+			return "", false, false
+		}
+		c, isCall := x.(*ssa.Call)
+		if !isCall || !c.Call.IsInvoke() || c.Call.Method.Name() != "String" {
+			return "", false, false
+		}
+		return constant.StringVal(k.Value), bo.Op == token.EQL, true
+	}
+	modes := map[string]bool{}
+	for _, b := range fn.Blocks {
+		if cond := IfCond(b); cond != nil {
+			if m, _, ok := modeOf(cond); ok {
+				modes[m] = true
+			}
+		}
+	}
+	var ms []string
+	for m := range modes {
+		ms = append(ms, m)
+	}
+	sort.Strings(ms)
+	for _, m := range ms {
+		// explore (block, validated) states with the mode fixed
+		type state struct {
+			b *ssa.BasicBlock
+			v bool // a validating call was passed
+			k bool // a comparison of the mode was passed (before that the entry may carry no ifExists at all)
+		}
+		seen := map[state]bool{}
+		anyValidated := false
+		var bad token.Pos
+		work := []state{{fn.Blocks[0], false, false}}
+		for len(work) > 0 {
+			s := work[len(work)-1]
+			work = work[:len(work)-1]
+			if seen[s] {
+				continue
+			}
+			seen[s] = true
+			v, known := s.v, s.k
+			for _, ins := range s.b.Instrs {
+				switch x := ins.(type) {
+				case *ssa.Call:
+					if g := x.Call.StaticCallee(); g != nil && V[g] {
+						v = true
+						anyValidated = true
+					}
+				case *ssa.Return:
+					if s.b == fn.Recover {
+						continue
+					}
+					if ev := RetVal(x, len(x.Results)-1); IsNilConst(ev) && !v && known {
+						bad = x.Pos()
+					}
+				}
+			}
+			succs := s.b.Succs
+			if cond := IfCond(s.b); cond != nil {
+				if k, isEq, ok := modeOf(cond); ok {
+					taken := 1
+					if (k == m) == isEq {
+						taken = 0
+					}
+					succs = []*ssa.BasicBlock{s.b.Succs[taken]}
+					known = true
+				}
+			}
+			for _, nb := range succs {
+				work = append(work, state{nb, v, known})
+			}
+		}
+		key := "mode@" + m
+		switch {
+		case !anyValidated:
+			r.OK(key, "this mode validates nothing on any path (nothing to agree with)", fn.Pos())
+		default:
+			r.Check(bad == token.NoPos, key, "every successful path of this mode validates the description", fmt.Sprintf("for ifExists: '%s' the description is validated on some paths of applyIfExistsConfig but a success return is reachable without it (depending only on what exists on disk): an invalid entry is accepted when its target happens to be absent or present, and the rest of the tree is written", m), bad)
+		}
+	}
+	if len(ms) < 3 {
+		r.Undecided("modes", fmt.Sprintf("only %d mode constants found in applyIfExistsConfig", len(ms)), fn.Pos())
+	}
+}
+
+func init() { register("C19", Rule{"R19i", ruleModeValidatedOnAllPaths}) }
